@@ -108,7 +108,9 @@ def basis_check(case):
     t = np.arange(n)
     ks = np.arange(0, (n + 1) // 2)            # k < n/2 : strictly below Nyquist
     B = np.concatenate([np.cos(2 * np.pi * ks[:, None] * t[None, :] / n), np.sin(2 * np.pi * ks[:, None] * t[None, :] / n)]).astype(dt)
-    for s in FRACS + [n - 0.5, -(n - 0.5)]:
+    # ... including shifts a few millionths (relative) away from a large whole number of samples: they are fractional shifts, not integer ones
+    near_int = [m * (1 + 4e-6) for m in (n - 1, -(n - 2), n // 2 + 1) if abs(m) >= 8]
+    for s in FRACS + [n - 0.5, -(n - 0.5)] + near_int:
         out = fourier.fshift(B, s, axis=1)
         ntr += 1
         ref = np.concatenate([np.cos(2 * np.pi * ks[:, None] * (t[None, :] - s) / n), np.sin(2 * np.pi * ks[:, None] * (t[None, :] - s) / n)])
@@ -249,6 +251,28 @@ def history_check(case):
             if _maxerr(out, ref) > 1e-10 or not np.array_equal(sv, keep):
                 seen.setdefault("shifts-array-reused", "per-trace shifts %r reused on blocks of %d samples: result differs from single-trace calls by %.3g; shifts array afterwards %r"
                                 % (keep.tolist(), m, _maxerr(out, ref), sv.tolist()))
+    # ... and the caller updates that array in place between two calls on blocks of the same shape (the new values count, not the old ones)
+    for n in range(a, min(b, a + 4)):
+        for axis, shape in ((1, (5, n + 6)), (0, (n + 6, 5))):
+            blk = np.eye(n + 6)[:5] if axis == 1 else np.eye(n + 6)[:, :5]
+            base = np.array([-1.5, 2.0, -3.25, 0.4, 7.0])
+            for form in ("broadcast", "flat"):
+                if form == "flat" and axis != 1:
+                    continue
+                sv = (base[:, None] if axis == 1 else base[None, :]).copy() if form == "broadcast" else base.copy()      # ONE array object, handed over as it is
+                for upd in (lambda v: v.__iadd__(3), lambda v: v.__imul__(-1), lambda v: v.__setitem__(Ellipsis, 0.0), lambda v: v.__setitem__(tuple([2] + [0] * (v.ndim - 1)) if axis == 1 else (0, 2), 1.25)):
+                    try:
+                        fourier.fshift(blk, sv, axis=axis)
+                        upd(sv)
+                        out = fourier.fshift(blk, sv, axis=axis)
+                        ntr += 2
+                        ref = fourier.fshift(blk, np.array(sv.tolist()), axis=axis)
+                    except Exception as e:
+                        seen.setdefault("shifts-array-updated-in-place:exc", "%s: %s" % (type(e).__name__, e))
+                        break
+                    if _maxerr(out, ref) > 1e-10:
+                        seen.setdefault("shifts-array-updated-in-place", "per-trace shifts updated in place to %r between two calls on %r blocks (axis %d): the second result differs from a call with a fresh array by %.3g"
+                                        % (sv.ravel().tolist(), shape, axis, _maxerr(out, ref)))
     return Res(list(seen.items()), o="h", tr=ntr)
 
 
